@@ -1,4 +1,5 @@
 import Op2Proofs.SortLemmas
+import Op2Proofs.PathLemmas6
 import Op2Model.Path
 import Op2Model.Bits
 import Op2Model.Gen.Formulas
@@ -155,5 +156,153 @@ theorem gen_IsPowerOf2_eq (v : Nat) (hv : v < W32) : gen_IsPowerOf2 (v : Int) = 
     by_cases hz : v &&& (v - 1) = 0
     · simp [hz]
     · simp [hz]
+
+/-! ## (5) path laws: leading `./`, join, split/re-join, extension replacement
+
+Side conditions are stated on the bytes.  "relative" is `p.head? ≠ some sep` (`Op2.Path.Rel`), which is
+exactly "no root component" (`Op2.Path.hasRootComponent_eq_false_iff`); a "plain name" is non-empty and
+free of `/` (`Op2.Path.Plain`).  Lemmas live in `Op2Proofs.PathLemmas`…`PathLemmas6`. -/
+
+open Op2.Path in
+/-- (a) path equality ignores a leading `./` on *every* relative path (the empty path included) -/
+theorem C19_pathEq_ignores_leading_dot_slash (p : Bytes) (hrel : p.head? ≠ some sep) :
+    pathsAreEqual ([dot, sep] ++ p) p = true := pathsAreEqual_dotslash p hrel
+
+open Op2.Path in
+/-- (b) joining a relative directory (any relative string: empty, trailing or doubled slashes, `.`/`..`
+    elements) with a plain name and taking the file name back returns that name -/
+theorem C19_filename_of_join (d n : Bytes) (hd : d.head? ≠ some sep) (hn : n ≠ [] ∧ sep ∉ n) :
+    ∃ r, xAppend d n = .ok r ∧ getFilename r = n :=
+  ⟨_, xAppend_rel_plain d n hd hn, filename_joinT_snoc _ n (toks_append_plain d n hn)⟩
+
+open Op2.Path in
+/-- (c) splitting a relative path (trailing slash allowed, empty allowed) into directory and file name
+    and re-joining succeeds and gives an equal path -/
+theorem C19_split_rejoin (p : Bytes) (hrel : p.head? ≠ some sep) :
+    ∃ r, xAppend (getDirectory p) (getFilename p) = .ok r ∧ pathsAreEqual r p = true := by
+  have hpl := elems_rel_plain p hrel
+  exact ⟨_, rejoin_rel p hrel,
+    pathsAreEqual_of_elems_eq _ p (joinT_rel _ hpl) hrel (elems_joinT _ hpl)⟩
+
+open Op2.Path in
+/-- (d) replacing the extension of a separator-free name by an extension `e` (= `s` or `"." ++ s`, `s`
+    non-empty and free of `.` and `/`) makes it match `e` in any letter case -/
+theorem C19_change_extension_matches (f s e e' : Bytes) (hf : sep ∉ f)
+    (hs : s ≠ [] ∧ dot ∉ s ∧ sep ∉ s) (he : e = s ∨ e = dot :: s) (hcase : eqCI e e' = true) :
+    extensionMatches (changeFileExtension f e) e' = true :=
+  chext_matches f e e' hf ((isExt_iff e).mpr ⟨s, hs.1, hs.2.1, hs.2.2, he⟩)
+    (eqCI_imp_toUpper_eq e e' hcase).symm
+
+open Op2.Path in
+/-- (d) with "case variant" read as equal upper-casings -/
+theorem C19_change_extension_matches_upper (f e e' : Bytes) (hf : sep ∉ f) (he : IsExt e)
+    (hcase : toUpper e' = toUpper e) : extensionMatches (changeFileExtension f e) e' = true :=
+  chext_matches f e e' hf he hcase
+
+open Op2.Path in
+/-- the side condition of (a)–(c) in the library's own terms: a path has no root component
+    (`XFile::HasRootComponent` is false) exactly when it does not start with a separator -/
+theorem C19_relative_iff_no_root_component (p : Bytes) :
+    hasRootComponent p = false ↔ p.head? ≠ some sep := hasRootComponent_eq_false_iff p
+
+open Op2.Path in
+/-- (a) is sharp: a leading `./` is ignored on relative paths and on no other path -/
+theorem C19_pathEq_leading_dot_slash_iff (p : Bytes) :
+    pathsAreEqual ([dot, sep] ++ p) p = true ↔ p.head? ≠ some sep := pathsAreEqual_dotslash_iff p
+
+open Op2.Path in
+/-- (b) with the directory's side condition phrased through `HasRootComponent` -/
+theorem C19_filename_of_join_no_root (d n : Bytes) (hd : hasRootComponent d = false)
+    (hn : n ≠ [] ∧ sep ∉ n) : ∃ r, xAppend d n = .ok r ∧ getFilename r = n :=
+  C19_filename_of_join d n ((hasRootComponent_eq_false_iff d).mp hd) hn
+
+open Op2.Path in
+/-- (c) with the side condition phrased through `HasRootComponent` -/
+theorem C19_split_rejoin_no_root (p : Bytes) (hp : hasRootComponent p = false) :
+    ∃ r, xAppend (getDirectory p) (getFilename p) = .ok r ∧ pathsAreEqual r p = true :=
+  C19_split_rejoin p ((hasRootComponent_eq_false_iff p).mp hp)
+
+open Op2.Path in
+/-- (d) for *every* path `f` — with directories, root name, trailing slash, empty: whatever precedes it,
+    the replaced extension is matched in any letter case -/
+theorem C19_change_extension_matches_every_path (f s e e' : Bytes)
+    (hs : s ≠ [] ∧ dot ∉ s ∧ sep ∉ s) (he : e = s ∨ e = dot :: s) (hcase : eqCI e e' = true) :
+    extensionMatches (changeFileExtension f e) e' = true :=
+  chext_matches_any f e e' ((isExt_iff e).mpr ⟨s, hs.1, hs.2.1, hs.2.2, he⟩)
+    (eqCI_imp_toUpper_eq e e' hcase).symm
+
+open Op2.Path in
+/-- what `ChangeFileExtension` then reports as the extension: `"." ++ s` -/
+theorem C19_extension_after_change (f s e : Bytes)
+    (hs : s ≠ [] ∧ dot ∉ s ∧ sep ∉ s) (he : e = s ∨ e = dot :: s) :
+    getFileExtension (changeFileExtension f e) = dot :: s := by
+  have hx := (isExt_iff e).mpr ⟨s, hs.1, hs.2.1, hs.2.2, he⟩
+  have := extension_replaceExtension_any f e hx
+  have hb : extBody e = s := by
+    rcases he with rfl | rfl
+    · cases e with
+      | nil => exact absurd rfl hs.1
+      | cons c r =>
+        have hc : c ≠ dot := by intro h; apply hs.2.1; simp [h]
+        simp [extBody, hc]
+    · simp [extBody]
+  rw [hb] at this
+  exact this
+
+/-! ### the unrestricted statements of (b) and (c) are false (of the model and of the library alike:
+`path.fnappend 2f2f 62` answers `//b`, `path.rejoin 2f` answers `err` on both sides) -/
+
+open Op2.Path in
+/-- (b) without "relative": every directory `d` -/
+def C19_filename_of_join_full : Prop :=
+  ∀ d n : Bytes, n ≠ [] ∧ sep ∉ n → ∃ r, xAppend d n = .ok r ∧ getFilename r = n
+
+open Op2.Path in
+/-- `"//"` joined with `"b"` is the root name `"//b"`, whose file name is `"//b"` -/
+theorem C19_filename_of_join_full_fails : ¬ C19_filename_of_join_full := by
+  intro h
+  obtain ⟨r, h1, h2⟩ := h [sep, sep] [98] (by decide)
+  have e : xAppend [sep, sep] [98] = .ok [sep, sep, 98] := rfl
+  rw [e] at h1
+  cases h1
+  revert h2; decide
+
+open Op2.Path in
+/-- (c) without "relative": every path `p` -/
+def C19_split_rejoin_full : Prop :=
+  ∀ p : Bytes, ∃ r, xAppend (getDirectory p) (getFilename p) = .ok r ∧ pathsAreEqual r p = true
+
+open Op2.Path in
+/-- the file name of `"/"` is `"/"`, which `Append` refuses as a second argument -/
+theorem C19_split_rejoin_full_fails : ¬ C19_split_rejoin_full := by
+  intro h
+  obtain ⟨r, h1, _⟩ := h [sep]
+  have e : xAppend (getDirectory [sep]) (getFilename [sep]) = .error .refused := rfl
+  rw [e] at h1
+  cases h1
+
+/-! ### non-vacuity and sharpness of the side conditions ("a" = 97, "B" = 66, "x" = 120) -/
+
+open Op2.Path in
+/-- hypotheses of (a)–(d) are satisfiable: `"d/a"`, (`"d/"`, `"a.b"`), `"d//a/"`, (`"a.b"`, `".x"`, `".X"`) -/
+example : ([100, sep, 97] : Bytes).head? ≠ some sep
+    ∧ (([100, sep] : Bytes).head? ≠ some sep ∧ ([97, dot, 66] : Bytes) ≠ [] ∧ sep ∉ ([97, dot, 66] : Bytes))
+    ∧ ([100, sep, sep, 97, sep] : Bytes).head? ≠ some sep
+    ∧ (sep ∉ ([97, dot, 66] : Bytes) ∧ IsExt [dot, 120] ∧ eqCI [dot, 120] [dot, 88] = true) := by decide
+
+open Op2.Path in
+/-- the conclusions on these points, computed: `./d/a` = `d/a`; `"./"` = `""` -/
+example : pathsAreEqual [dot, sep, 100, sep, 97] [100, sep, 97] = true
+    ∧ pathsAreEqual [dot, sep] [] = true
+    ∧ (xAppend [100, sep] [97, dot, 66]).toOption.map getFilename = some [97, dot, 66]
+    ∧ extensionMatches (changeFileExtension [97, dot, 66] [dot, 120]) [dot, 88] = true := by decide
+
+open Op2.Path in
+/-- sharpness: (a) fails on `"/a"`; (b) fails for the empty name; (c) re-joining `"/"` is refused;
+    (d) fails for `e = "x.y"` (the new extension is `.y`) -/
+example : pathsAreEqual ([dot, sep] ++ [sep, 97]) [sep, 97] = false
+    ∧ (xAppend [97] []).toOption.map getFilename = some [97]
+    ∧ (xAppend (getDirectory [sep]) (getFilename [sep])).toOption = none
+    ∧ extensionMatches (changeFileExtension [97] [120, dot, 121]) [120, dot, 121] = false := by decide
 
 end Op2.Props.C19
